@@ -20,8 +20,9 @@ META = {
                    "result of f (a failing operation never produces a result); the ExecError index is self.pc read before any pc update. R4 frame conditions: memory readers take &Memory / &[Arc<Memory>]. "
                    "R5 stack effect of fixed-arity ops equals asm.yml; no peeking. R6 the positions that DupFrom, SwapIndex, Load, Store, Reserve, SelectRange, Drop/pop_len_words*, Alloc, Free, "
                    "Memory Load/Store/LoadRange/StoreRange read and write, as linear forms over the length and the popped operands (len - 1 - index for depth indices, index for bottom-relative ones, "
-                   "[index, index + len) for ranges, old length returned by Reserve/Alloc), the length being read after the operands are popped, and the operand wiring of step_op_memory.",
-    "not_decided": "the contents compared by range/set equality (EqRange, EqSet) beyond the slices handed to the comparison; that Vec/slice primitives (swap, copy_within, truncate, resize, split_at) do what std documents.",
+                   "[index, index + len) for ranges, old length returned by Reserve/Alloc), the length being read after the operands are popped, the operand wiring of step_op_memory; EqRange takes exactly 2*len words, splits them at len and compares the halves, "
+                   "EqSet compares the two decoded sets, decode_set takes each item below its length word.",
+    "not_decided": "that slice/HashSet equality compare contents (std); that Vec/slice primitives (swap, copy_within, truncate, resize, split_at) do what std documents.",
 }
 
 CMPS = {"==": "Eq", ">": "Gt", "<": "Lt", ">=": "Ge", "<=": "Le"}
